@@ -649,11 +649,11 @@ def _do_run(a, pid, seed, mod, subs, known, known_active, scratch, t0):
     for v in violations:
         print("  violation sub=%s key=%s cases=%d :: %s" % (v["sub"], v["key"], v["n"], v["msg"].replace("\n", " ")[:240]))
         print("VIOLATION property=%s replay=%s" % (pid, v["replay"]))
+    for h in harness[:3]:
+        print("HARNESS-ERROR " + h[-1500:])
     if violations:
         return 1
     if harness:
-        for h in harness[:5]:
-            print("HARNESS-ERROR " + h[-1500:])
         return 2
     if evals == 0:
         print("HARNESS-ERROR no cases evaluated")
